@@ -14,6 +14,18 @@ import time
 
 from vlib import boot
 
+def _repr_image(s: str):
+    """Value denoted by the repr string the SER shows for a parameter value JSON cannot carry (numpy scalars inside)."""
+    import ast
+    import re
+
+    t = re.sub(r"np\.float64\(([^()]*)\)", r"\1", s).replace("np.True_", "True").replace("np.False_", "False")
+    try:
+        return ast.literal_eval(t)
+    except Exception:
+        return None
+
+
 LEVEL = "exploration"
 RULE = ("C01 generator (succeeding and failing pipelines, every parameter placement incl. defaults and defaults overridden by "
         "context) x detail levels x host TZ in {UTC, +09:00, -08:00, +05:45} (time.tzset in-process; thorough also fresh "
@@ -171,6 +183,8 @@ def check_case(run, case, detail, tz, scratch, digests, warmup_ctx=None):
             sv, av = account.plain(params[name]), account.plain(nt.params[name])
             if isinstance(sv, str) and not isinstance(av, str) and (sv.startswith(("FloatDataType(", "FloatDataCollection(", "NoDataType(")) or sv.startswith("Hostile(")):
                 run.count("non_json_parameter_values_shown_as_repr")  # a data object held in the context: the SER can only show its repr
+            elif isinstance(sv, str) and not isinstance(av, str) and _repr_image(sv) is not None and account.close(av, account.plain(_repr_image(sv))):
+                run.count("non_json_parameter_values_shown_as_repr")  # e.g. a probe's dict of numpy scalars: shown as its repr
             elif not account.close(sv, av):
                 viol(f"parameter_value_wrong:{okind}_sourced", f"SER parameters['{name}']={params[name]!r}, value actually passed {nt.params[name]!r}", i)
             if sources.get(name) != want_src:
